@@ -275,8 +275,7 @@ where
     let mut output_arg = None;
     let mut input_arg = None;
     let mut double_dash_input = false;
-    let mut dep_target = None;
-    let mut dep_flag = OsString::from("-MT");
+    let mut dep_targets: Vec<(OsString, OsString)> = vec![];
     let mut common_args = vec![];
     let mut arch_args = vec![];
     let mut unhashed_args = vec![];
@@ -378,8 +377,11 @@ where
                 }
             }
             Some(DepTarget(s)) => {
-                dep_flag = OsString::from(arg.flag_str().expect("Dep target flag expected"));
-                dep_target = Some(s.clone());
+                // Every -MT/-MQ adds a target to the dependency rule, so keep all of them.
+                dep_targets.push((
+                    OsString::from(arg.flag_str().expect("Dep target flag expected")),
+                    s.clone(),
+                ));
             }
             Some(DepArgumentPath(_)) => {
                 need_explicit_dep_argument_path = DepArgumentRequirePath::Provided;
@@ -634,8 +636,14 @@ where
         profile_generate = true;
     }
     if need_explicit_dep_target {
-        dependency_args.push(dep_flag);
-        dependency_args.push(dep_target.unwrap_or_else(|| output.clone().into_os_string()));
+        if dep_targets.is_empty() {
+            dependency_args.push(OsString::from("-MT"));
+            dependency_args.push(output.clone().into_os_string());
+        }
+        for (dep_flag, dep_target) in dep_targets {
+            dependency_args.push(dep_flag);
+            dependency_args.push(dep_target);
+        }
     }
     if let DepArgumentRequirePath::Missing = need_explicit_dep_argument_path {
         dependency_args.push(OsString::from("-MF"));
